@@ -103,6 +103,9 @@ class ServerLoop(impl.VirtualLoop):
                     p, t = self.conns[cid]
                     if not t.closes and not getattr(t, "lost_reported", False):
                         t.lost_reported = True
+                        eof = getattr(p, "eof_received", None)
+                        if callable(eof):
+                            eof()                     # (asyncio: end of stream first, then the lost connection)
                         p.connection_lost(None)
             except Exception as e:  # noqa
                 self.errors.append("scenario step %r: %r" % (action[0], e))
